@@ -1118,6 +1118,12 @@ class Interp:
                 a = args[0] if args else []
                 if isinstance(a, _DictView):
                     a = a.materialise()
+                if not isinstance(a, (list, tuple, set, frozenset, dict, range, str, Unknown, Sym)) and len(args) == 1:
+                    # any other iterable abstract value (object with __iter__, reader, ...)
+                    try:
+                        a = list(self.iterate(a, node))
+                    except Undecided:
+                        pass
                 if isinstance(a, (list, tuple, set, frozenset, dict, range)):
                     items = list(a)
                     if name == "list" or name == "reversed":
@@ -1142,7 +1148,13 @@ class Interp:
                 return list(range(*args))
             if name == "enumerate" and isinstance(args[0], (list, tuple)):
                 st = kwargs.get("start", args[1] if len(args) > 1 else 0)
-                return [(i + st, x) for i, x in enumerate(args[0])]
+                if isinstance(st, int):
+                    return [(i + st, x) for i, x in enumerate(args[0])]
+                out, cur = [], st
+                for x in args[0]:
+                    out.append((cur, x))
+                    cur = self.binop(ast.Add(), cur, 1, node)
+                return out
             if name == "zip" and all(isinstance(a, (list, tuple)) for a in args):
                 return list(zip(*args))
             if name == "zip" and args and all(isinstance(a, (list, tuple, CountIter)) for a in args) and any(isinstance(a, (list, tuple)) for a in args):
